@@ -524,3 +524,33 @@ mod tests {
         assert_eq!(h.values().filter(|v| v.starts_with("Z/2")).count(), 2);
     }
 }
+
+#[cfg(test)]
+mod timing {
+    use super::*;
+    #[test]
+    #[ignore]
+    fn reference_cost() {
+        let k10: [[u32; 4]; 10] = [[4, 2, 5, 1], [8, 4, 9, 3], [9, 15, 10, 14], [5, 13, 6, 12], [13, 7, 14, 6], [11, 19, 12, 18], [15, 1, 16, 20], [19, 11, 20, 10], [2, 8, 3, 7], [17, 17, 18, 16]];
+        for n in [8usize, 9, 10] {
+            let pd = &k10[..n];
+            // not a link for n < 10: only time the valid one
+            if n < 10 { continue; }
+            let t = std::time::Instant::now();
+            let dg = Diagram::from_pd(pd);
+            if dg.orientation().is_err() { println!("invalid"); continue; }
+            let c = Cube::new(&dg, 0, 0, false, None).unwrap();
+            println!("n={n} gens={} build {:?}", c.total_generators(), t.elapsed());
+            let t = std::time::Instant::now();
+            let h = c.homology_bigraded(None);
+            println!("  bigraded Z: {} cells {:?}", h.len(), t.elapsed());
+            let t = std::time::Instant::now();
+            let c1 = Cube::new(&dg, 1, 1, false, None).unwrap();
+            let h = c1.homology(None);
+            println!("  (1,1) Z: {} degrees {:?}", h.len(), t.elapsed());
+            let t = std::time::Instant::now();
+            let h = c1.homology(Some(3));
+            println!("  (1,1) F3: {} degrees {:?}", h.len(), t.elapsed());
+        }
+    }
+}
